@@ -125,6 +125,16 @@ func scenarios(prop string, thorough bool) []*Scenario {
 		// on both sides of the one-byte / three-byte count boundary, in both orders, with other traffic
 		r = append(r, &Scenario{Name: "full+txmanager/ready/long-accepted-headers", Opt: netsim.Options{TxManager: true, Universe: true}, Prefix: ready,
 			Alphabet: []string{"headers[universe-chain-252]", "headers[universe-chain-253]", "headers[universe-chain-300]", "headers[]", "ping", "inv[tx0]", "unknown[1024]"}, Depth: pick(2, 3), oracle: oracleC14})
+		// a secondary headers handler is installed (as the node manager does for every node): the
+		// verification reply and later headers messages are teed to it while the node reads only what
+		// it needs; replies of 1, 2, 30 and 2000 headers, delivered whole and in pieces that do not
+		// line up with the 1024-byte steps in which the unread rest of a message is skipped
+		for _, chunk := range []int{0, 7, 700} {
+			role := netsim.Options{TxManager: true, HeaderHandler: true, ReadChunk: chunk}
+			r = append(r, &Scenario{Name: fmt.Sprintf("full+txmanager+header-handler/verification-reply/reads-%d", chunk), Opt: role, Prefix: []string{"version", "verack"},
+				Alphabet: []string{"headers[bsv-split,29x-unknown]", "headers[bsv-split,unknown]", "headers[bsv-split]", "headers[block1,block2]", "headers[2000x-unknown]", "headers[]", "ping", "inv[tx0]", "unknown[1025]"},
+				Depth:    2, oracle: oracleC14})
+		}
 		r = append(r, &Scenario{Name: "full/handshake-complete-unverified", Opt: netsim.Options{TxManager: true}, Prefix: []string{"version", "verack"},
 			Alphabet: without(alpha), Depth: pick(2, 3), Extend: []string{"version", "verack"}, ExtendDepth: 13, oracle: oracleC14})
 	}
